@@ -115,7 +115,9 @@ Section Through.
     - destruct resp as [status hs|status hs sub].
       + destruct (alist_get S_LOCATION hs) as [[|c l]|].
         * inversion H; subst. eapply R_mono; [|apply R_refl]. lia.
-        * destruct (open_conn (c :: l) None st) as [[[x2 tg]|e] st1] eqn:E1.
+        * destruct (parse_url (c :: l)) as [tg0|e0];
+            [|inversion H; subst; eapply R_mono; [|apply R_refl]; lia].
+          destruct (open_conn (c :: l) None st) as [[[x2 tg]|e] st1] eqn:E1.
           -- destruct (do_handshake (c :: l) tg o x2 _) as [[[resp'|e] x3] st3] eqn:E2.
              ++ eapply R_mono;
                   [|eapply R_trans; [eapply R_open; exact E1|
@@ -330,6 +332,7 @@ Proof.
   - inversion H; subst. exact L.
   - destruct resp as [status hs|status hs sub].
     + destruct (alist_get S_LOCATION hs) as [[|c l]|]; try discriminate H.
+      destruct (parse_url (c :: l)) as [tg0|e0]; [|discriminate H].
       destruct (open_conn (c :: l) None st) as [[[x2 tg]|e] st1] eqn:E1; [|discriminate H].
       destruct (do_handshake (c :: l) tg o x2 _) as [[[resp1|e] x3] st3] eqn:E2; [|discriminate H].
       eapply IH; [|exact H]. eapply do_handshake_last. exact E2.
@@ -655,6 +658,7 @@ Proof.
   - inversion H; subst. eauto.
   - destruct resp as [status hs|status hs sub]; [|eapply IH; exact H].
     destruct (alist_get S_LOCATION hs) as [[|c l]|]; try (inversion H; subst; eauto; fail).
+    destruct (parse_url (c :: l)) as [tg0|e0]; [|inversion H; subst; eauto].
     destruct (open_conn (c :: l) None st) as [[[x2 tg]|e] st1]; [|inversion H; subst; eauto].
     destruct (do_handshake (c :: l) tg o x2 _) as [[[resp'|e] x3] st3];
       [eapply IH; exact H|inversion H; subst; eauto].
